@@ -155,3 +155,61 @@ func zzH_C14_doLifecycle() {
 	zz.Assert(zzDoStarts <= 2, "no more machines are started than demand and replacements justify")
 	cancel()
 }
+
+// zzH_C14_doLostInFlight: a machine stops while a task is still running on it
+// and the manager processes the stop before the task's Done report arrives
+// (hung or partitioned worker). The procs of that task must still be taken off
+// the demand: when the task is resubmitted, exactly the machines the new
+// request needs are started -- no machine for the dead task's stale demand.
+func zzH_C14_doLostInFlight() {
+	const machprocs = 2
+	m := &machineManager{machprocs: machprocs, maxp: 6, schedc: make(chan *scheduleRequest), unschedc: make(chan *scheduleRequest)}
+	ctx, cancel := context.WithCancel(context.Background())
+	go m.Do(ctx)
+	p1 := zz.AnyIntIn("procs1", 1, machprocs)
+	c1, _ := m.Offer(0, p1)
+	m1 := <-c1
+	zzCheckGrant(m1, p1)
+	zz.Assert(zzDoStarts == 1, "one machine is started for a demand of at most one machine")
+	// the machine dies with the task in flight
+	zzDoStopped[m1] = true
+	close(zzDoStops[m1.Machine])
+	doneFirst := zz.AnyBool("doneReportBeforeStopIsProcessed")
+	if doneFirst {
+		zzDone(m1, p1, zzMakeErr(zzErrNet))
+	}
+	for k := 0; k < 3 && !zzDoStopSeen[m1]; k++ {
+		zzLetManagerRun()
+	}
+	zz.Assert(zzDoStopSeen[m1], "the manager processes the stop of a machine")
+	if !doneFirst {
+		zz.Reach("done report from a machine already marked lost")
+		zzDone(m1, p1, zzMakeErr(zzErrNet))
+	}
+	zzLetManagerRun()
+	// (while the dead machine's task had not reported yet its procs were still
+	// demand, so a replacement may already have been started: that is justified)
+	if doneFirst {
+		zz.Assert(zzDoStarts == 1, "no machine is started while there is no demand")
+	}
+	// the task is resubmitted
+	p2 := zz.AnyIntIn("procs2", 1, machprocs)
+	c2, cancel2 := m.Offer(0, p2)
+	var m2 *sliceMachine
+	for spin := 0; spin < 4 && m2 == nil; spin++ {
+		if m2 = zzTryRecv(c2); m2 == nil {
+			zzLetManagerRun()
+		}
+	}
+	zz.Assert(m2 != nil, "a queued request is granted once a replacement machine is available")
+	if m2 != nil {
+		zz.Reach("replacement grant")
+		zz.Assert(m2 != m1, "a stopped machine receives no new work")
+		zzCheckGrant(m2, p2)
+		zzDone(m2, p2, nil)
+	}
+	zzLetManagerRun()
+	cancel2()
+	zz.Assert(zzDoStarts == 2, "exactly one replacement machine is started: no more machines than demand justifies")
+	cancel()
+}
